@@ -14,6 +14,7 @@ import (
 	sdk "github.com/cosmos/cosmos-sdk/types"
 	authtypes "github.com/cosmos/cosmos-sdk/x/auth/types"
 	banktypes "github.com/cosmos/cosmos-sdk/x/bank/types"
+	"github.com/cosmos/gogoproto/proto"
 
 	ophosttypes "github.com/initia-labs/OPinit/x/ophost/types"
 
@@ -40,6 +41,7 @@ type l1Profile struct {
 }
 
 type pendingTx struct {
+	Msgs    []sdk.Msg // more than one message: an atomic multi-message transaction
 	Msg     sdk.Msg
 	Bytes   []byte
 	Kind    string
@@ -846,6 +848,24 @@ func (w *l1World) runBlock() *core.Violation {
 	for i := 0; i < ntx; i++ {
 		msg, kind, desc := w.genOp(spec, bc)
 		pt := pendingTx{Msg: msg, Kind: kind, Desc: desc}
+		if w.p.W["multi"] > 0 && r.Chance(w.p.W["multi"], 100) {
+			// an atomic multi-message transaction: all or nothing
+			pt.Msgs = []sdk.Msg{msg}
+			sc := spec.clone()
+			if so := sc.step(msg, bc); so.P.Kind != mustFail && so.OnSuccess != nil {
+				so.OnSuccess(&txRes{OK: true})
+			}
+			n := 1 + r.Intn(2)
+			for k := 0; k < n; k++ {
+				m2, k2, d2 := w.genOp(sc, bc)
+				pt.Msgs = append(pt.Msgs, m2)
+				pt.Desc += " ++ " + k2 + "{" + d2 + "}"
+				if so := sc.step(m2, bc); so.P.Kind != mustFail && so.OnSuccess != nil {
+					so.OnSuccess(&txRes{OK: true})
+				}
+			}
+			pt.Kind = "multi"
+		}
 		opts := node.TxOpts{}
 		if w.p.GasAbort > 0 && r.Chance(w.p.GasAbort, 100) {
 			opts.Gas = uint64(5_000 + r.Intn(120_000))
@@ -857,15 +877,18 @@ func (w *l1World) runBlock() *core.Violation {
 			pt.Fault = fmt.Sprintf("fault:%s:%d:%s", site, r.Intn(3), kindF)
 			opts.Memo = pt.Fault
 		}
-		bz, err := node.BuildTx(w.enc, []sdk.Msg{msg}, opts)
+		bmsgs := []sdk.Msg{msg}
+		if len(pt.Msgs) > 1 {
+			bmsgs = pt.Msgs
+		}
+		bz, err := node.BuildTx(w.enc, bmsgs, opts)
 		if err != nil {
 			panic(fmt.Sprintf("BuildTx: %v", err))
 		}
 		pt.Bytes = bz
 		txs = append(txs, pt)
-		so := spec.step(msg, bc)
-		if so.P.Kind != mustFail && so.OnSuccess != nil && !pt.LowGas && pt.Fault == "" {
-			so.OnSuccess(&txRes{OK: true})
+		if !pt.LowGas && pt.Fault == "" {
+			w.specApply(spec, bmsgs, bc)
 		}
 	}
 	// crash plan
@@ -940,6 +963,22 @@ func (w *l1World) execBlock(bc blockCtx, txs []pendingTx, stub []node.StubOp, cr
 	anySuccess := false
 	for i, pt := range txs {
 		tr := toTxRes(w.enc, res.TxResults[i])
+		if len(pt.Msgs) > 1 {
+			ffm := i < len(fired) && fired[i]
+			status := "ok"
+			if !tr.OK {
+				status = "FAIL(" + firstLine(tr.Log) + ")"
+			}
+			r.Step("tx.multi", "%s %s%s -> %s", pt.Desc, pt.Fault, lowGasTag(pt.LowGas), status)
+			if v := w.applyMulti(pt, tr, bc, ffm); v != nil {
+				return v
+			}
+			if tr.OK {
+				anySuccess = true
+				w.succ["multi"]++
+			}
+			continue
+		}
 		so := w.m.step(pt.Msg, bc)
 		ff := i < len(fired) && fired[i]
 		if ff {
@@ -1151,3 +1190,101 @@ func (w *l1World) acctKind(addr []byte) string {
 	return "other"
 }
 
+
+// specApply applies a transaction speculatively (generator side): atomic.
+func (w *l1World) specApply(spec *modelL1, msgs []sdk.Msg, bc blockCtx) {
+	sc := spec
+	if len(msgs) > 1 {
+		sc = spec.clone()
+	}
+	for _, m := range msgs {
+		so := sc.step(m, bc)
+		if so.P.Kind == mustFail {
+			return // the whole tx is expected to fail: no effect
+		}
+		if so.OnSuccess != nil {
+			so.OnSuccess(&txRes{OK: true})
+		}
+	}
+	if len(msgs) > 1 {
+		// commit: replay on the real speculative model
+		for _, m := range msgs {
+			if so := spec.step(m, bc); so.OnSuccess != nil {
+				so.OnSuccess(&txRes{OK: true})
+			}
+		}
+	}
+}
+
+// applyMulti runs a multi-message transaction through the model: it succeeds
+// iff every message succeeds in sequence, and has no effect at all otherwise.
+func (w *l1World) applyMulti(pt pendingTx, tr *txRes, bc blockCtx, faultFired bool) *core.Violation {
+	if faultFired || strings.Contains(tr.Log, "out of gas") {
+		if tr.OK && faultFired {
+			return w.fail(mismatch{"fault.not-propagated", "dependency-fault-swallowed:multi", []string{"C01", "C19", "C12", w.p.Prop}, "multi-message tx succeeded although an injected dependency fault fired"})
+		}
+		return nil
+	}
+	scratch := w.m.clone()
+	var p pred
+	failAt := -1
+	for i, m := range pt.Msgs {
+		so := scratch.step(m, bc)
+		if so.P.Kind == mustFail {
+			p.Kind = mustFail
+			p.Reasons = so.P.Reasons
+			failAt = i
+			break
+		}
+		if so.P.Kind == either {
+			p.Kind = either
+		}
+		if so.OnSuccess != nil {
+			for _, z := range so.OnSuccess(&txRes{OK: true}) {
+				if z.Inv == "model.abstain" {
+					panic(core.Abort{Reason: "model-abstains:" + z.Key})
+				}
+			}
+		}
+	}
+	switch {
+	case p.Kind == mustFail && tr.OK:
+		var owners []string
+		for _, rs := range p.Reasons {
+			owners = append(owners, rs.Owners...)
+		}
+		rs := p.Reasons[0]
+		return w.fail(mismatch{rs.Inv, rs.Key, owners, fmt.Sprintf("multi-message tx {%s} succeeded although its message %d must fail (%s)", pt.Desc, failAt, rs.Inv)})
+	case p.Kind == mustSucceed && !tr.OK:
+		return w.fail(mismatch{"complete.multi", "multi-rejected", []string{"C01", "C12", "C10", "C11"}, fmt.Sprintf("multi-message tx {%s} failed but every message must succeed: %s", pt.Desc, firstLine(tr.Log))})
+	}
+	if !tr.OK {
+		w.r.Probe("multi.rolled-back")
+		return nil
+	}
+	evs := splitByMsg(tr.Events, len(pt.Msgs))
+	for i, m := range pt.Msgs {
+		so := w.m.step(m, bc)
+		sub := &txRes{OK: true, Events: evs[i]}
+		if i < len(tr.Resps) && tr.Resps[i] != nil {
+			sub.Resps = []proto.Message{tr.Resps[i]}
+		}
+		if so.OnSuccess != nil {
+			for _, z := range so.OnSuccess(sub) {
+				if z.Inv == "model.abstain" {
+					panic(core.Abort{Reason: "model-abstains:" + z.Key})
+				}
+				return w.fail(z)
+			}
+		}
+		if c, ok := m.(*ophosttypes.MsgFinalizeTokenWithdrawal); ok {
+			k := fmt.Sprintf("%d/%d/%s/%s/%s/%s", c.BridgeId, c.Sequence, c.From, c.To, c.Amount.Denom, c.Amount.Amount)
+			w.paid[k]++
+			if w.paid[k] > 1 {
+				return w.fail(mismatch{"claim.paid-twice", "withdrawal-paid-twice", []string{"C02", "C01"}, "withdrawal " + k + " finalized more than once"})
+			}
+		}
+	}
+	w.r.Probe("multi.committed")
+	return nil
+}
